@@ -88,6 +88,8 @@ func (p *MACPayload) UnmarshalBinary(uplink bool, data []byte) error {
 	}
 
 	// decode the optional FPort
+	p.FPort = nil
+	p.FRMPayload = nil
 	if dataLen > 7+int(p.FHDR.FCtrl.fOptsLen) {
 		fPort := uint8(data[7+int(p.FHDR.FCtrl.fOptsLen)])
 		p.FPort = &fPort
